@@ -555,7 +555,10 @@ Fixpoint flatten_outputs (outs : list (N * N)) : list Z :=
             output [0; n_in; ids..; n_out; (script, value)..] | [1; kind; detail] | [-2]
      1 :: n_inputs :: script* -> [vsize]
      2 :: k :: j :: v         -> [fee]
-     3 :: script              -> [minimal_non_dust; script length; is_op_return; is_witness_program] *)
+     3 :: script              -> [minimal_non_dust; script length; is_op_return; is_witness_program]
+     4 :: target :: prefer_under :: nU :: (id, value)* :: nI :: (id, offset)* :: nR :: id* :: nL :: id*
+       :: nS :: id*           -> select_cardinal_utxo on the pool (wallet ids minus the nS spent ones)
+                                 [0; id; value; nPool; pool ids..] | [1; kind; detail] *)
 Definition run_C20 (inp : list Z) : list Z :=
   match inp with
   | 0%Z :: k :: j :: tk :: ta :: rc :: c0 :: c1 :: oid :: ooff :: rest =>
@@ -571,6 +574,22 @@ Definition run_C20 (inp : list Z) : list Z :=
     | Ok (inputs, outs) =>
       0%Z :: zN (N.of_nat (length inputs)) :: zs inputs
         ++ zN (N.of_nat (length outs)) :: flatten_outputs outs
+    | Err e => [1%Z; zN (e mod 16); zN (e / 16)]
+    | Panic _ => [(-2)%Z]
+    end
+  | 4%Z :: target :: pu :: rest =>
+    let '(us, rest1) := read_pair_list rest in
+    let '(ins, rest2) := read_pair_list rest1 in
+    let '(runic, rest3) := read_id_list rest2 in
+    let '(locked, rest4) := read_id_list rest3 in
+    let '(spent, _) := read_id_list rest4 in
+    let amounts := fold_left (fun acc p => insert_amount (fst p) (snd p) acc) us [] in
+    let inscr := fold_left (fun acc p => insert_satpoint p acc) ins [] in
+    let w := mkWallet amounts inscr runic locked 0 0 0 0 0 TPostage in
+    let pool := filter (fun x => negb (mem x spent)) (map fst amounts) in
+    match select_cardinal_utxo w (mkSt pool [] [] []) (nZ target) (negb (Z.eqb pu 0)) with
+    | Ok (u, v, st') =>
+      0%Z :: zN u :: zN v :: zN (N.of_nat (length (s_utxos st'))) :: zs (s_utxos st')
     | Err e => [1%Z; zN (e mod 16); zN (e / 16)]
     | Panic _ => [(-2)%Z]
     end
